@@ -202,7 +202,7 @@ func mkEntry(spec string) *PendingLogEntry {
 		e.Certificate = []byte("tbs-" + tbs)
 		e.PreCertificate = []byte("pre-" + name)
 	case strings.HasPrefix(name, "X"):
-		e.Certificate = realCert()
+		e.Certificate = realCertNamed(name)
 	case strings.HasPrefix(name, "hex:"):
 		b, err := hex.DecodeString(name[4:])
 		if err != nil {
@@ -598,12 +598,17 @@ func buildBase(size int64) *baseTree {
 	return b
 }
 
-var realCertOnce sync.Once
-var realCertDER []byte
+var realCerts sync.Map // name -> DER
 
-func realCert() []byte {
-	realCertOnce.Do(func() { realCertDER = makeRealCert() })
-	return realCertDER
+// realCertNamed returns a parseable certificate per name ("X", "X1", ...): each
+// contributes its own line to the names tile.
+func realCertNamed(name string) []byte {
+	if v, ok := realCerts.Load(name); ok {
+		return v.([]byte)
+	}
+	der := makeRealCert(name)
+	v, _ := realCerts.LoadOrStore(name, der)
+	return v.([]byte)
 }
 
 var stdB64 = base64.StdEncoding
